@@ -37,6 +37,13 @@ MUT = {
  "M27_rowidx_only_multi": ("core.py", "            row_idx[0] = 1 + encoding._assemble_objects(", "            row_idx[0] = (1 if len(rep) > 1 else 0) + encoding._assemble_objects("),
  "M28_no_struct_shift": ("core.py", "    shift = max(n_opt - 1, 0)\n", "    shift = 0\n"),
  "M29_null_from_path0": ("core.py", "    return n_opt > 0, defi, max_def - shift", "    return (not schema_helper.is_required(path[0])), defi, max_def - shift"),
+ "M30_cont_only_not_handled": ("core.py", "            lead = int(starts[0]) if len(starts) else len(rep)\n", "            lead = int(starts[0]) if len(starts) else 0\n"),
+ "M31_lead_nulls_dropped": ("core.py", "                    elif de > null:\n                        items.append(None)\n                assign[row_idx[0] - 1].extend(items)", "                assign[row_idx[0] - 1].extend(items)"),
+ "M32_lead_values_offset": ("core.py", "                lrep, lval = rep[lead:], val[nv:]", "                lrep, lval = rep[lead:], val[lead:]"),
+ "M33_always_call": ("core.py", "            if len(lrep):\n                row_idx[0] = 1 + encoding._assemble_objects(", "            if True:\n                row_idx[0] = 1 + encoding._assemble_objects("),
+ "M34_lead_only_if_value": ("core.py", "                assign[row_idx[0] - 1].extend(items)\n", "                if nv:\n                    assign[row_idx[0] - 1].extend(items)\n"),
+ "M35_lead_no_dict": ("core.py", "                vals = iter(dic[val[:nv]] if d else val[:nv])", "                vals = iter(val[:nv])"),
+ "M36_stats_null_count": ("core.py", None, None),
  "N1_rename_local": ("core.py", None, None),
  "N2_reorder": ("core.py", "            null, ldefi, lmax_defi = _nested_levels(schema_helper, cmd.path_in_schema, defi, max_defi)\n            null_val = (se.repetition_type !=\n                        parquet_thrift.FieldRepetitionType.REQUIRED)\n",
                 "            null_val = (se.repetition_type !=\n                        parquet_thrift.FieldRepetitionType.REQUIRED)\n            null, ldefi, lmax_defi = _nested_levels(schema_helper, cmd.path_in_schema, defi, max_defi)\n"),
@@ -48,7 +55,11 @@ name = sys.argv[1]
 f, old, new = MUT[name]
 p = R + f
 src = open(p).read()
-if name == "N1_rename_local":
+if name == "M36_stats_null_count":
+    import subprocess as sp
+    sp.check_call(["git", "-C", os.path.dirname(R.rstrip("/")), "apply", os.path.join(os.path.dirname(os.path.dirname(os.path.abspath(__file__))), "seeded", "C15-3", "patch.diff")])
+    new_src = open(p).read()
+elif name == "N1_rename_local":
     new_src = src.replace("row_idx", "list_row_index")
     assert new_src != src
 else:
